@@ -167,6 +167,19 @@ static void run_scenario(const Scenario& sc, const string& child) {
       so = r.stdout_contents;
       se = r.stderr_contents;
       status = r.exit_status;
+    } else if (sc.api == "abandon") {
+      // a Subprocess object destroyed while its child may still be running (timeout_usecs = pause before destruction):
+      // the destructor must end and reap the child, whatever the child does about SIGTERM
+      int fds[3];
+      {
+        Subprocess sp(cmd);
+        child_pid = sp.pid();
+        fds[0] = sp.stdin_fd(), fds[1] = sp.stdout_fd(), fds[2] = sp.stderr_fd();
+        if (sc.timeout_usecs) usleep(sc.timeout_usecs);
+      }
+      // the object does not own its pipe ends beyond its life: close them for the accounting
+      for (int fd : fds)
+        if (fd >= 0) __real_close(fd);
     } else {
       string got_err;
       {
@@ -334,6 +347,13 @@ int main(int argc, char** argv) {
   }
   // a child that ignores SIGTERM must still be ended (the escalation to SIGKILL comes 5 s later)
   all.push_back({"run_process", P{{"it", 0}, {"w1", 10}, {"s", 30000}, {"x", 0}}, -1, false, 300000, "none"});
+  // abandoned objects: child asleep (ignoring SIGTERM or not), blocked reading its input, blocked writing, already gone
+  all.push_back({"abandon", P{{"it", 0}, {"w1", 10}, {"s", 100000}, {"x", 0}}, -1, false, 50000, "none"});
+  all.push_back({"abandon", P{{"w1", 10}, {"s", 100000}, {"x", 0}}, -1, false, 50000, "none"});
+  all.push_back({"abandon", P{{"it", 0}, {"rall", 0}, {"x", 0}}, -1, false, 30000, "none"});
+  all.push_back({"abandon", P{{"it", 0}, {"w1", 1000000}, {"x", 0}}, -1, false, 30000, "none"});
+  all.push_back({"abandon", P{{"x", 3}}, -1, false, 100000, "none"});
+  all.push_back({"abandon", P{{"w1", 5}, {"x", 0}}, -1, false, 0, "none"});
   // repeated calls: no descriptor may be left behind however many times it is called
   for (int i = 0; i < (quick ? 5 : 40); i++) all.push_back({"run_process", progs[3].second, 0, false, 0, "none"});
 
